@@ -555,6 +555,7 @@ func init() {
 			{Name: "PATH-SEEK", What: "Seek: lastChunk = {off,off} exactly on the success edge of the in-block seek; the sticky error is re-assigned on every path", Floor: 1, Run: rulePathSeek},
 			{Name: "PATH-NEXTBLOCK", What: "nextBlock reports a read-ahead result (data or error) only for the decompressor whose base matched the expected one", Floor: 1, Run: ruleNextBlock},
 			{Name: "FAILED-CURRENT", What: "nextBlock makes the failed block current before it returns that block's error (the end of the stream included): Seek's shortcut for the block held needs hasData, which a failed block does not have – the slow path runs and re-points the parked read-ahead goroutine (added after twelfth-round seed C02-n, which PATH-NEXTBLOCK had reported by accident)", Floor: 1, Run: ruleFailedCurrent},
+			{Name: "ERR-OVERWRITE", What: "a possibly failing store to Reader.err – io.EOF is one – is read before the field is assigned again (shared with C09)", Floor: 2, Run: ruleErrOverwrite},
 			{Name: "READ-FILLS", What: "Reader.Read comes back with fewer bytes than asked for only where the recorded error was found non-nil (or, in Blocked mode, with io.EOF): every way from the fill loop to the final return has the buffer full or an error recorded (added after twelfth-round seed C02-m)", Floor: 1, Run: ruleReadFills},
 			{Name: "GEN-BIND", What: "read-ahead generations: a result read for the latest instruction never looks stale (shared with C09: \"every call returns\")", Floor: 2, Run: ruleGenBind},
 			{Name: "SYNC-REDIRECT", What: "after nextBlock's synchronous fall-back the read-ahead goroutine is re-pointed on every path (shared with C09)", Floor: 1, Run: ruleSyncRedirect},
